@@ -3,7 +3,12 @@ PROP = {'rule': 'rapid-generated cases. ownerMatch: 0-3 owners (object ref / con
          'empty owner) x pod (name, namespace, uid, labels, 0-2 owner references) over small value pools; non-trivial = an owner with '
          '>=2 selectors ANDed or >=2 owners ORed. distinct = FNV-64 fingerprint of the full case.',
  'assumptions': ['owner specifications are syntactically valid label selectors (what the API server admits)'],
- 'units': [{'name': 'owners',
+ 'units': [{'name': 'plugin',
+            'pkg': 'pkg/scheduler/plugins/reservation',
+            'files': ['C05/c05_cache_test.go'],
+            'tests': [{'run': 'TestVerifC05CacheHistory', 'quick': 1500, 'thorough': 6000, 'steps': 40},
+                      {'run': 'TestVerifC05Fit', 'quick': 4000, 'thorough': 30000}]},
+           {'name': 'owners',
             'pkg': 'pkg/util/reservation',
             'files': ['C05/c05_owner_test.go'],
             'tests': [{'run': 'TestVerifC05OwnerMatch', 'quick': 4000, 'thorough': 30000}]}],
